@@ -26,7 +26,7 @@ class Prop:
             "unanswered initiation (retransmission gaps, give-up, with/without persistent keepalive; the bind refusing the 1st/2nd initiation), response to the k-th transmission only, "
             "interface bounce (Down/Up) within 1.2 s of a handshake message with/without persistent keepalive, answered or not, "
             "give-up with something queued on a first handshake and on a re-handshake after an earlier session (key aged 181 s and attempt counter preset by hooks in quick, full 20 transmissions in thorough) followed by new traffic, "
-            "receive-only (keepalive at 10 s, second data while pending), unanswered send (new handshake at 15 s + jitter; answered => none; answered exchange first, then an unanswered send), "
+            "receive-only (keepalive at 10 s, second data while pending), unanswered send (new handshake at 15 s + jitter; answered => none; answered exchange first, then an unanswered send; the cancelling arrival being in turn data, keepalive, peer initiation with confirmation withheld, response), "
             "peer created with its persistent keepalive by one UAPI set on a device that is up (vs. configured before Up), "
             "second episodes on the same peer (second attempt after a give-up must be retransmitted again, second give-up, second handshake answered and used, interval switched off and on again over UAPI), "
             "fresh non-retry initiation while the retransmit timer is pending (lastSentHandshake aged by hook), 2..6 separately staged batches at give-up and at peer stop, "
